@@ -344,6 +344,16 @@ class Q(Fraction):
         return self
 
 
+def _nice_float(x):
+    """a float that is exactly a small dyadic rational (a neutral element, a half, ...): exact arithmetic keeps it exact.  Any
+    other float is the rounded image of something (a power, a logarithm): arithmetic with it stays floating point, as before,
+    and comparisons use the validation tolerance"""
+    if not math.isfinite(x):
+        return False
+    f = Fraction(x)
+    return f.denominator <= (1 << 20) and abs(f.numerator) <= (1 << 40)
+
+
 def _q_install():
     import operator as op
     def mk2(name, fname, rev):
@@ -353,8 +363,8 @@ def _q_install():
                 return _TENSOR_BINOP(name, o, self) if rev else _TENSOR_BINOP(name, self, o)
             if isinstance(o, Sym):
                 return NotImplemented
-            if type(o) is float and name != "pow" and math.isfinite(o):
-                o = Fraction(o)      # a float is a dyadic rational: stay exact (the symbolic mode treats it the same way)
+            if type(o) is float and name != "pow" and _nice_float(o):
+                o = Fraction(o)      # 0.0, 1.0, 0.5, ...: stay exact (the symbolic mode treats them the same way)
             r = base(self, o)
             if type(r) is Fraction:
                 return Q(r)
@@ -372,7 +382,7 @@ def _q_install():
                     return _TENSOR_BINOP(name, self, o)
                 if isinstance(o, Sym):
                     return NotImplemented
-                if type(o) is float and math.isfinite(o):
+                if type(o) is float and _nice_float(o):
                     o = Fraction(o)
                 return base(self, o)
             return f
